@@ -4,7 +4,7 @@ CONSTANTS
   Mutant = "rewindseek"
   Lens = {0, 1, 16, 511, 512, 513, 1500}
   Chunks = {0, 1, 7, 511, 512, 513}
-  MaxK = 3
+  MaxK = 2
   MaxFileFields = 1
   MaxItems = 2
   MaxFields = 2
